@@ -66,6 +66,10 @@ func alignLoops(body ast.Node, fc *FuncContract) map[token.Pos]int {
 			if gotoLabels(body)[l.Label.Name] {
 				src = append(src, srcLoop{l.Pos(), l.Label.Name + ":"})
 			}
+		case *ast.CallExpr:
+			if isLoopCall(l) && len(l.Args) > 0 {
+				src = append(src, srcLoop{l.Pos(), "slices.DeleteFunc(" + exprString(l.Args[0])})
+			}
 		}
 		return true
 	})
@@ -123,10 +127,20 @@ func loopIndex(body ast.Node) map[token.Pos]int {
 				n++
 				m[nd.Pos()] = n
 			}
+		case *ast.CallExpr:
+			if isLoopCall(l) {
+				n++
+				m[nd.Pos()] = n
+			}
 		}
 		return true
 	})
 	return m
+}
+
+// isLoopCall: library calls that the engine executes as loops and that therefore take loop contracts.
+func isLoopCall(c *ast.CallExpr) bool {
+	return noSpace(exprString(c.Fun)) == "slices.DeleteFunc"
 }
 
 // gotoLabels returns the labels that are targets of goto statements in body.
@@ -442,7 +456,7 @@ func (ex *Exec) stmtChecks(s ast.Stmt) {
 		return
 	}
 	switch s.(type) {
-	case *ast.AssignStmt, *ast.ExprStmt, *ast.ReturnStmt, *ast.IncDecStmt, *ast.BranchStmt, *ast.ForStmt, *ast.IfStmt, *ast.RangeStmt:
+	case *ast.AssignStmt, *ast.ExprStmt, *ast.ReturnStmt, *ast.IncDecStmt, *ast.BranchStmt, *ast.ForStmt, *ast.IfStmt, *ast.RangeStmt, *ast.DeclStmt, *ast.GoStmt, *ast.DeferStmt, *ast.SendStmt:
 	default:
 		return
 	}
